@@ -66,6 +66,18 @@ func c14Versions(kind string, now time.Time) []*alert.Alert {
 			vAlert("A", "1", "2", start, now.Add(5*time.Minute+ms), now.Add(-2*ms), true),
 			vAlert(bname, "1", "2", start, now.Add(-1*ms), now.Add(-1*ms), false),
 		}
+	case "backlog": // 66 other alerts queued ahead on the same ingestion path (same fingerprint parity), then fire + resolve of A
+		fa := vAlert("A", "1", "", start, start, start, false).Fingerprint()
+		var out []*alert.Alert
+		for i := 0; len(out) < 66; i++ {
+			n := fmt.Sprintf("F%d", i)
+			if uint64(vAlert(n, "1", "", start, start, start, false).Fingerprint())%2 == uint64(fa)%2 {
+				out = append(out, vAlert(n, "1", "1", start, now.Add(5*time.Minute), now.Add(-3*ms), true))
+			}
+		}
+		return append(out,
+			vAlert("A", "1", "1", start, now.Add(5*time.Minute), now.Add(-2*ms), true),
+			vAlert("A", "1", "2", start, now.Add(-1*ms), now.Add(-1*ms), false))
 	case "refire": // resolved alert fires again
 		return []*alert.Alert{
 			vAlert("A", "1", "1", start, now.Add(-2*ms), now.Add(-2*ms), false),
@@ -128,7 +140,9 @@ func c14Exec(t *testing.T, p c14Part, prefix []int, expect []string, trace bool)
 				prov = string(a.Annotations["v"])
 			}
 			copies, ngroups := f.groupCopies(fp)
-			obs = append(obs, fmt.Sprintf("%s:provider=%s groups=%v ngroups=%d", want.name, prov, copies, ngroups))
+			if len(order) <= 4 || prov != want.v || len(copies) != 1 || copies[0] != prov {
+				obs = append(obs, fmt.Sprintf("%s:provider=%s groups=%v ngroups=%d", want.name, prov, copies, ngroups))
+			}
 			if x.Violation == "" {
 				switch {
 				case prov != want.v:
@@ -145,7 +159,17 @@ func c14Exec(t *testing.T, p c14Part, prefix []int, expect []string, trace bool)
 		s.Drive()
 		var dl []string
 		for _, d := range f.stage.deliveries() {
-			dl = append(dl, fmt.Sprintf("%s@%v", strings.Join(d.Alerts, ","), d.At.Round(time.Second)))
+			al := d.Alerts
+			if len(al) > 4 {
+				var keep []string
+				for _, a := range al {
+					if strings.HasPrefix(a, "A:") {
+						keep = append(keep, a)
+					}
+				}
+				al = append(keep, fmt.Sprintf("(+%d others)", len(d.Alerts)-len(keep)))
+			}
+			dl = append(dl, fmt.Sprintf("%s@%v", strings.Join(al, ","), d.At.Round(time.Second)))
 		}
 		x.Outcome = fmt.Sprintf("%v deliveries=%v", obs, dl)
 		if x.Violation == "" {
@@ -180,12 +204,12 @@ func TestVerifC14(t *testing.T) {
 		for _, k := range []string{"refresh", "resolve", "refire"} {
 			jobs = append(jobs, job{c14Part{k, 0}, -1}, job{c14Part{k, 1}, -1})
 		}
-		jobs = append(jobs, job{c14Part{"refresh3", 0}, 3}, job{c14Part{"refresh", 4}, 3}, job{c14Part{"resolve", 4}, 3}, job{c14Part{"two", 0}, 3}, job{c14Part{"two", 4}, 2})
+		jobs = append(jobs, job{c14Part{"refresh3", 0}, 3}, job{c14Part{"refresh", 4}, 3}, job{c14Part{"resolve", 4}, 3}, job{c14Part{"two", 0}, 3}, job{c14Part{"two", 4}, 2}, job{c14Part{"backlog", 0}, 2})
 	} else {
 		for _, k := range []string{"refresh", "resolve", "refire"} {
 			jobs = append(jobs, job{c14Part{k, 0}, 2}, job{c14Part{k, 1}, 2})
 		}
-		jobs = append(jobs, job{c14Part{"refresh3", 0}, 1}, job{c14Part{"refresh", 4}, 2}, job{c14Part{"two", 0}, 2})
+		jobs = append(jobs, job{c14Part{"refresh3", 0}, 1}, job{c14Part{"refresh", 4}, 2}, job{c14Part{"two", 0}, 2}, job{c14Part{"backlog", 0}, 1})
 	}
 	if rp := rep.ReplaySpec(); rp != nil {
 		part, _ := rp["part"].(string)
